@@ -38,7 +38,7 @@ def run(ctx):
     ctx.coverage.update({
         "evaluations": len(cases), "distinct_nontrivial": nontrivial, "exhaustive": True, "per_transformation": dict(per_op),
         "rule": "spec/GraphSem.tla!Generate: every DAG with <= MaxN nodes (<= MaxIn inputs per node, edges i<j; up to FullN "
-                "nodes: one two-output node and multi-edges), terminal nodes with and without outputs, names from a pool "
+                "nodes: one two-output node and multi-edges), terminal nodes with and without outputs, sink lists = the terminal nodes, or (graphs <= FullN nodes, and expand's outer / sub-graphs) every node in both orders / first and last node, names from a pool "
                 "sharing characters/prefixes (and all-equal names for dedup; second outputs called 'b' or like an attribute of Node / of the sub-graph proxy: payload, name, inputs, outputs, leaves, output_map, ...), crossed with copy / rename{prefix,const} / "
                 "fuse{new,inplace,linear,never callbacks} / dedup{payloads from {1,2}, inputs declared in either order} / split{all key maps} / "
                 f"expand{{outer x sub-graph x input map (none = by name, empty, partial, full; sources named like / unlike the inputs) x output map (total, partial with same-name fallback, none) x names incl. dotted names of the expanded node, after join_namespaced, and two-level expansion}}; constants {cs}; non-trivial = the graph has "
